@@ -343,7 +343,7 @@ func ruleShimChannels(c *Ctx, p *Prog, ruleC, ruleB string) {
 			}
 			if reason == "" {
 				if len(sends) == 0 {
-					if !(onceBody(fn0) || goBodyOnce(fn0)) {
+					if !(onceBody(fn0) || onceBody(closes[0].Instr.Parent()) || goBodyOnce(fn0)) {
 						reason = "the close site in " + FuncName(fn0) + " is neither the body of a sync.Once nor of a goroutine started once per connection: two callers can close twice (panic: close of closed channel)"
 					}
 				} else {
@@ -642,6 +642,64 @@ func ruleReverseProxyFields(c *Ctx, p *Prog, rule string) {
 	}
 	if n == 0 {
 		c.Unk(rule, "hostProxy:ReverseProxy-fields", p, hp.Pos(), "no field of the backend-facing ReverseProxy is set in hostProxy (expected at least FlushInterval)")
+	}
+	// the dial hooks of the backend-facing transport are stateless: a closure over the standard
+	// dialers, not a method of a module type that can remember an earlier failure
+	nd := 0
+	for _, fn := range WithClosures(hp) {
+		EachInstr(fn, func(i ssa.Instruction) {
+			st, ok := i.(*ssa.Store)
+			if !ok {
+				return
+			}
+			base, f, ok := FieldAddrOf(st.Addr)
+			if !ok {
+				return
+			}
+			switch NamedType(base.Type()) {
+			case "net/http.Transport", "golang.org/x/net/http2.Transport":
+			default:
+				return
+			}
+			if !strings.HasPrefix(f, "Dial") && f != "Proxy" {
+				return
+			}
+			nd++
+			bad := ""
+			scan := func(g *ssa.Function) {
+				if g.Parent() == nil {
+					bad = "a method value of / the module function " + FuncName(g)
+					return
+				}
+				for _, h := range WithClosures(g) {
+					EachInstrRaw(h, func(j ssa.Instruction) {
+						cc := CallOf(j)
+						if cc == nil {
+							return
+						}
+						if callee := StaticFunc(cc); callee != nil && p.IsModFunc(callee) {
+							bad = "a literal that calls " + FuncName(callee)
+						}
+					})
+				}
+			}
+			switch v := Peel(st.Val).(type) {
+			case *ssa.MakeClosure:
+				scan(v.Fn.(*ssa.Function))
+			case *ssa.Function:
+				if p.IsModFunc(v) {
+					scan(v)
+				}
+			default:
+				if !IsNilConst(st.Val) {
+					bad = "not a function literal"
+				}
+			}
+			c.Check(rule, "hostProxy:Transport."+f+"-is-stateless", p, st.Pos(), bad == "", "the dial hook is a closure over the standard dialers", "the backend-facing transport's "+f+" is "+bad+": a dialer with memory (a remembered failure, a hold-off, a pool of its own) can fail requests issued after the backend has recovered — one unreachable moment is no longer confined to the requests that met it")
+		})
+	}
+	if nd == 0 {
+		c.Unk(rule, "hostProxy:Transport-dial-hooks", p, hp.Pos(), "the HTTP/2 transport of hostProxy no longer sets a dial hook")
 	}
 }
 
@@ -1067,6 +1125,51 @@ func ruleAppResponseCacheKey(c *Ctx, p *Prog, rule string) {
 		}
 		return true
 	})
+	// … verbatim: each rendered component is the e-mail or the URL string itself, not a function of it
+	// (a masked, lower-cased or shortened user tag maps different users to one key)
+	verb := ""
+	ncomp := 0
+	for _, sp := range sprintfs {
+		if len(PArgs(&sp.Call)) < 2 {
+			continue
+		}
+		for _, r := range Roots(PArgs(&sp.Call)[1]) {
+			sl, isS := r.(*ssa.Slice)
+			if !isS {
+				continue
+			}
+			for _, u := range Refs(sl.X) {
+				ia, isIA := u.(*ssa.IndexAddr)
+				if !isIA {
+					continue
+				}
+				for _, uu := range Refs(ia) {
+					st, isSt := uu.(*ssa.Store)
+					if !isSt || st.Addr != ssa.Value(ia) {
+						continue
+					}
+					ncomp++
+					v := st.Val
+					if mi, isMI := v.(*ssa.MakeInterface); isMI {
+						v = mi.X
+					}
+					okc := true
+					for _, root := range Roots(v) {
+						if _, f, isF := FieldLoad(root); isF && f == "Email" {
+							continue
+						}
+						if call, isC := root.(*ssa.Call); isC && CalleeName(call.Common()) == "(*net/url.URL).String" {
+							continue
+						}
+						okc = false
+						verb = "component " + PathOf(root) + " at " + p.Pos(st.Pos())
+					}
+					_ = okc
+				}
+			}
+		}
+	}
+	c.Check(rule, "response-cache:components-verbatim", p, rd.Pos(), verb == "" && ncomp >= 2, fmt.Sprintf("the %d rendered components are the user's e-mail and r.URL.String() themselves", ncomp), "the response-cache key renders "+verb+" instead of the e-mail / URL itself: a masked, normalised or shortened component is not injective (a***@corp.example stands for alice and adam), so one user is served another user's cached response")
 	c.Check(rule, "response-cache:key-components", p, rd.Pos(), sawUser && sawURL, "the key is built from the authenticated user's e-mail and the full request URL", fmt.Sprintf("the response-cache key does not depend on both the user e-mail (%v) and r.URL.String() (%v): responses are shared across users or URLs", sawUser, sawURL))
 	// only GETs are served from / stored into the cache
 	for _, site := range []struct {
